@@ -39,7 +39,7 @@ class Num:
         self.kind = kind  # 'float' | 'int'
         # how the numeral is SPELLED when it has to become concrete text (regular expressions, RDKit, replay files):
         # None = the way Python prints the number; 'plain' = positional decimal without exponent ('0.00002');
-        # 'sci' = mantissa and signed exponent ('2.5e+04'); 'sci-short' = as users write it ('5e7', '2.5e-3').
+        # 'sci' = mantissa and signed exponent ('2.5e+04'); 'sci-short' = as users write it ('5e7', '2.5e-3'); 'sci-upper' = the same with a capital E.
         # Python-level parsing (float(), int()) reads every spelling as the value v.
         self.style = style
 
@@ -63,6 +63,8 @@ def render_num(num, value):
 
         t = _np.format_float_positional(x, trim="0")
         return t
+    if st == "sci-upper":
+        return render_num(Num(num.v, num.kind, "sci-short"), value).replace("e", "E")
     if st in ("sci", "sci-short"):
         from decimal import Decimal
 
@@ -521,11 +523,15 @@ def concretise(s):
 # (regular expressions, RDKit) is forked over these classes and pinned to one representative value per class.
 _FLOAT_CLASSES = [
     ("zero", lambda x: x == 0, [0.0]),
-    ("plain", lambda x: And(abs(x) >= 1e-4, abs(x) < 1e16, x > 0), [1.0, 2.0, 0.5, 3.0, 1.5, 10.0, 50.0, 100.0, 0.25, 1000.0, 12.5]),
-    ("plain-negative", lambda x: And(abs(x) >= 1e-4, abs(x) < 1e16, x < 0), [-1.0, -2.0, -0.5, -10.0, -100.0]),
-    ("small-exponent", lambda x: And(abs(x) < 1e-4, x > 0), [1e-05, 2e-05, 5e-06, 1e-06, 1e-07]),
-    ("small-exponent-negative", lambda x: And(abs(x) < 1e-4, x < 0), [-1e-05, -1e-06]),
-    ("large-exponent", lambda x: x >= 1e16, [1e16, 1e17, 1e20]),
+    # positive values: repr() switches to an exponent below 1e-4 and from 1e16; the other spellings ('2.5e-3', '1.2e3') differ
+    # in the sign / presence of the exponent below 1, in [1, 10) and from 10 on
+    ("small-exponent", lambda x: And(x > 0, x < 1e-4), [2.5e-05, 1e-05, 5e-06, 1e-06, 1e-07]),
+    ("below-one", lambda x: And(x >= 1e-4, x < 1), [0.025, 0.5, 0.25, 0.125, 0.001]),
+    ("one-to-ten", lambda x: And(x >= 1, x < 10), [2.5, 1.0, 2.0, 3.0, 1.5, 5.0]),
+    ("ten-and-more", lambda x: And(x >= 10, x < 1e16), [1200.0, 50.0, 100.0, 12.5, 10.0, 1000.0, 25000.0, 99.0]),
+    ("large-exponent", lambda x: x >= 1e16, [2.5e16, 1e16, 1e17, 1e20]),
+    ("negative", lambda x: And(x < 0, x > -1e16, x <= -1e-4), [-1.0, -2.5, -0.5, -10.0, -100.0, -1200.0]),
+    ("small-exponent-negative", lambda x: And(x > -1e-4, x < 0), [-1e-05, -1e-06]),
     ("large-exponent-negative", lambda x: x <= -1e16, [-1e16, -1e20]),
 ]
 _INT_CLASSES = [
